@@ -10,6 +10,7 @@ CONSTANTS
   MCExtra = {0, 1}
   MCMulti = {FALSE}
   MCHow = {"cni"}
+  MCSteal = FALSE
   MCEniGone = FALSE
   MCEnis = {1}
   BadDesign = ""
